@@ -791,10 +791,100 @@ func sortField(c *Ctx, ci ssa.CallInstruction) (string, bool) {
 	return "", false
 }
 
+// derivedSortKey: the comparator of this sort has the single form f(a) < f(b) where f is a call
+// applied to the element (strings.ToLower(keys[i]) < strings.ToLower(keys[j])): elements with the
+// same image tie, and ties keep the order the map range produced (sort.Slice is not even stable).
+// Returns a description of f, or "" when the comparator has another form.
+func derivedSortKey(c *Ctx, ci ssa.CallInstruction) string {
+	less := comparatorOf(c, ci)
+	if less == nil || less.Blocks == nil {
+		return ""
+	}
+	rs := c.FA(less).returns()
+	if len(rs) != 1 || len(rs[0].Results) != 1 {
+		return ""
+	}
+	bo, ok := rs[0].Results[0].(*ssa.BinOp)
+	if !ok || (bo.Op != token.LSS && bo.Op != token.GTR && bo.Op != token.LEQ && bo.Op != token.GEQ) {
+		return ""
+	}
+	cx, okx := bo.X.(*ssa.Call)
+	cy, oky := bo.Y.(*ssa.Call)
+	if !okx || !oky {
+		return ""
+	}
+	fx, fy := cx.Call.StaticCallee(), cy.Call.StaticCallee()
+	if fx == nil || fx != fy || len(cx.Call.Args) == 0 {
+		return ""
+	}
+	// the argument must be an element of the sorted slice (or a field of one)
+	isElem := func(v ssa.Value) bool {
+		for v != nil {
+			switch y := v.(type) {
+			case *ssa.UnOp:
+				v = y.X
+				continue
+			case *ssa.FieldAddr:
+				v = y.X
+				continue
+			case *ssa.Field:
+				v = y.X
+				continue
+			case *ssa.IndexAddr, *ssa.Index, *ssa.Parameter:
+				return true
+			}
+			return false
+		}
+		return false
+	}
+	if !isElem(cx.Call.Args[0]) || !isElem(cy.Call.Args[0]) {
+		return ""
+	}
+	return fx.String() + "(element)"
+}
+
+// comparatorOf: the less function of a sort call (function literal, named function, or the Less
+// method of the sort.Interface value), nil for the built-in orders.
+func comparatorOf(c *Ctx, ci ssa.CallInstruction) *ssa.Function {
+	sc := ci.Common().StaticCallee()
+	if sc == nil {
+		return nil
+	}
+	n := sc.String()
+	if i := strings.Index(n, "["); i >= 0 {
+		n = n[:i]
+	}
+	switch n {
+	case "sort.Slice", "sort.SliceStable", "slices.SortFunc", "slices.SortStableFunc":
+		if len(ci.Common().Args) < 2 {
+			return nil
+		}
+		if mc, ok := ci.Common().Args[1].(*ssa.MakeClosure); ok {
+			f, _ := mc.Fn.(*ssa.Function)
+			return f
+		} else if f, ok := ci.Common().Args[1].(*ssa.Function); ok {
+			return f
+		}
+	case "sort.Stable", "sort.Sort":
+		if mi, ok := ci.Common().Args[0].(*ssa.MakeInterface); ok {
+			ms := c.Prog.MethodSets.MethodSet(mi.X.Type())
+			for i := 0; i < ms.Len(); i++ {
+				if ms.At(i).Obj().Name() == "Less" {
+					return c.Prog.MethodValue(ms.At(i))
+				}
+			}
+		}
+	}
+	return nil
+}
+
 // uniqueSortKey: what the loop collects is ordered by the map's own key (or a field that holds it),
 // so no two entries can tie. Only judged when the collection is by append inside the loop and the
 // sort field can be told; other shapes are left to the order check alone.
 func uniqueSortKey(a *FnA, ml *mapLoop, sortCall ssa.CallInstruction) (bool, string) {
+	if d := derivedSortKey(a.c, sortCall); d != "" {
+		return false, "the comparator orders the elements by " + d + ", a value computed from them that two different elements may share"
+	}
 	field, ok := sortField(a.c, sortCall)
 	if !ok || ml.key == nil {
 		return true, ""
